@@ -71,6 +71,8 @@ def _tw_mc_dist(c, tier):
         c.mc_phase("TimeWarpMC_d2.tla", "TimeWarpMC_d2_k1.cfg", MCD_NOTE % ("d2 (rank 0: 1 thread, rank 1: 2 threads racing on the network, 3 LPs)", 1),
                    workers=16, timeout=3000, heap="16g")
         c.probe_phase("TimeWarpMC_d2.tla", "TimeWarpMC_d2_k1.cfg", DIST_PROBES, workers=8, timeout=900, heap="8g")
+        c.mc_phase("TimeWarpMC_d1.tla", "TimeWarpMC_d1_g1.cfg", "d1 with an abstract GVT (one value) + fossil collection + release of the buffers of cancelled remote sends "
+                   "once the GVT has passed them (msg_allocator_on_gvt)", workers=16, timeout=3000, heap="16g")
 
 
 def _replay(c, tier, dist=False):
